@@ -18,3 +18,8 @@ Definition check_edge (rank : nat -> nat) (maxrank : nat) (e : edge) : bool :=
   Nat.leb (rank a) maxrank && Nat.leb (rank b) maxrank && (gd || Nat.ltb (rank b) (rank a)).
 Definition check_graph (g : list edge) (rank : nat -> nat) (maxrank : nat) : bool :=
   forallb (check_edge rank maxrank) g.
+
+(* Nesting loops: loops of the parser that put what they parsed so far one level deeper per
+   iteration without recursing, as (function, charged): charged = the loop body calls nest(),
+   which counts the iteration against the nesting limit. *)
+Definition check_loops (l : list (nat * bool)) : bool := forallb snd l.
